@@ -169,6 +169,11 @@ class UniverseInput(CellModifierInput):
                 ):
                     if isinstance(uni_number, (Jump, type(None))):
                         continue
+                    if cell is None:
+                        raise MalformedInputError(
+                            self._input,
+                            f"The universe input gives {len(self._old_numbers)} values for {len(cells)} cells",
+                        )
                     cell._universe._old_number = uni_number
                     if uni_number.is_negative:
                         cell._universe._not_truncated = True
